@@ -235,27 +235,48 @@ func checkCell(c *core.Ctx, s site, cl cell, fn *core.Fn, b tt.Body, x *tt.X, sp
 		return
 	}
 	var mine []*ast.CallExpr
+	subjArg := map[*ast.CallExpr]ast.Expr{} // the argument that stands for the item
+	var viaExprs []ast.Expr                 // what a proxy helper does with its parameter before calling the predicate
+	predObj := types.Object(pf.Obj)
 	for _, call := range core.Calls(b.Root, info, func(call *ast.CallExpr, callee types.Object) bool { return callee == types.Object(pf.Obj) }) {
 		if cl.tracked || root != nil && len(call.Args) > 0 && tt.MentionsResolved(info, b.Root, call.Args[0], root, 2) {
 			mine = append(mine, call)
+			if len(call.Args) > 0 {
+				subjArg[call] = call.Args[0]
+			}
 		}
 	}
 	if len(mine) == 0 {
-		// applied through a helper of the module? then it is not analysed here
+		// applied through a boolean helper of the same package whose `false` answer implies that the
+		// predicate answered false for the helper's parameter: the helper stands for the predicate
 		indirect := false
 		for _, call := range core.Calls(b.Root, info, func(*ast.CallExpr, types.Object) bool { return true }) {
-			if h := c.FnOf(core.CalleeFunc(info, call)); h != nil && h.Decl.Body != nil && strings.HasPrefix(h.Obj.Pkg().Path(), core.Module) {
-				if len(core.CallsAll(h.Decl.Body, h.Pkg.TypesInfo, func(_ *ast.CallExpr, callee types.Object) bool { return callee == types.Object(pf.Obj) })) > 0 {
-					indirect = true
+			h := c.FnOf(core.CalleeFunc(info, call))
+			if h == nil || h.Decl.Body == nil || !strings.HasPrefix(h.Obj.Pkg().Path(), core.Module) {
+				continue
+			}
+			inner := core.CallsAll(h.Decl.Body, h.Pkg.TypesInfo, func(_ *ast.CallExpr, callee types.Object) bool { return callee == types.Object(pf.Obj) })
+			if len(inner) == 0 {
+				continue
+			}
+			indirect = true
+			if j, ok := proxyFor(c, h, pf.Obj, inner); ok && !cl.tracked && h.Pkg.TypesInfo == info && j < len(call.Args) && root != nil && tt.MentionsResolved(info, b.Root, call.Args[j], root, 2) {
+				mine = append(mine, call)
+				subjArg[call] = call.Args[j]
+				predObj = h.Obj
+				for _, in := range inner {
+					viaExprs = append(viaExprs, closure(info, h.Decl.Body, in.Args[0], 2)...)
 				}
 			}
 		}
-		if indirect {
-			c.Undecidedf("R3.matrix", key, sink.Pos(), "%s is applied through a helper function, not analysed", cl.pred)
-		} else {
-			c.Failf("R3.matrix", key, sink.Pos(), "the %s path never evaluates filter.%s for the item it sends: %s", s.name, cl.pred, cl.why)
+		if len(mine) == 0 {
+			if indirect {
+				c.Undecidedf("R3.matrix", key, sink.Pos(), "%s is applied through a helper function, not analysed", cl.pred)
+			} else {
+				c.Failf("R3.matrix", key, sink.Pos(), "the %s path never evaluates filter.%s for the item it sends: %s", s.name, cl.pred, cl.why)
+			}
+			return
 		}
-		return
 	}
 	exempt := func(f cfgq.Fact) bool {
 		if cl.tracked && cmdIs(info, fn.Decl.Body, f, isPing) {
@@ -305,7 +326,7 @@ func checkCell(c *core.Ctx, s site, cl cell, fn *core.Fn, b tt.Body, x *tt.X, sp
 		okField, mentions := false, false
 		for _, call := range mine {
 			hasSel, hasVia := false, cl.via == ""
-			for _, e := range closure(info, b.Root, call.Args[0], 2) {
+			for _, e := range append(closure(info, b.Root, subjArg[call], 2), viaExprs...) {
 				ast.Inspect(e, func(n ast.Node) bool {
 					switch v := n.(type) {
 					case *ast.SelectorExpr:
@@ -375,7 +396,7 @@ func checkCell(c *core.Ctx, s site, cl cell, fn *core.Fn, b tt.Body, x *tt.X, sp
 				if bv, ok := tt.BoolConst(info, d.Rhs); ok && !bv {
 					continue
 				}
-				if dc, ok := ast.Unparen(d.Rhs).(*ast.CallExpr); ok && core.Callee(info, dc) == types.Object(pf.Obj) {
+				if dc, ok := ast.Unparen(d.Rhs).(*ast.CallExpr); ok && core.Callee(info, dc) == predObj {
 					continue
 				}
 			}
@@ -476,6 +497,62 @@ func checkCell(c *core.Ctx, s site, cl cell, fn *core.Fn, b tt.Body, x *tt.X, sp
 	}
 }
 
+// proxyFor decides whether the boolean helper h stands for the predicate pred: on every path on
+// which h answers false the predicate was evaluated on (a value derived from) one parameter of h and
+// answered false. It returns the index of that parameter.
+func proxyFor(c *core.Ctx, h *core.Fn, pred *types.Func, inner []*ast.CallExpr) (int, bool) {
+	info := h.Pkg.TypesInfo
+	sig := h.Obj.Type().(*types.Signature)
+	if sig.Results().Len() != 1 || sig.Variadic() {
+		return 0, false
+	}
+	if bt, ok := sig.Results().At(0).Type().Underlying().(*types.Basic); !ok || bt.Kind() != types.Bool {
+		return 0, false
+	}
+	// the parameter the predicate's argument is computed from
+	param := -1
+	for _, in := range inner {
+		if len(in.Args) == 0 {
+			return 0, false
+		}
+		k := 0
+		for _, fl := range h.Decl.Type.Params.List {
+			for _, n := range fl.Names {
+				if tt.MentionsResolved(info, h.Decl.Body, in.Args[0], info.Defs[n], 2) {
+					if param != -1 && param != k {
+						return 0, false
+					}
+					param = k
+				}
+				k++
+			}
+		}
+	}
+	if param < 0 {
+		return 0, false
+	}
+	hx := tt.New(cfgq.Of(c.Program, h))
+	traces, err := hx.Traces(hx.G.CFG.Blocks[0], 0, nil, 200)
+	if err != nil {
+		return 0, false
+	}
+	rows, err := hx.Table(traces, 0, func(l tt.Lit) (string, bool, bool) {
+		if call, ok := ast.Unparen(l.Expr).(*ast.CallExpr); ok && core.CalleeFunc(info, call) == pred {
+			return "P", true, true
+		}
+		return "t:" + c.Src(l.Expr), true, true
+	})
+	if err != nil || len(rows) == 0 {
+		return 0, false
+	}
+	for _, r := range rows {
+		if v, evaluated := r.Lits["P"]; r.Out == "false" && (!evaluated || v) {
+			return 0, false
+		}
+	}
+	return param, true
+}
+
 func viaText(v string) string {
 	if v == "" {
 		return ""
@@ -492,9 +569,7 @@ func rumpKeys(c *core.Ctx) {
 	}
 	info := fn.Pkg.TypesInfo
 	g := cfgq.Of(c.Program, fn)
-	x := tt.New(g)
 	key := "rump-keys/FilterKey"
-	why := "an excluded key is dumped and copied by rump"
 	// the send: dre.keyChan <- &KeyNode{k, ...} with k ranging over the key list
 	var listObj types.Object
 	for _, p := range g.Points(func(n ast.Node) bool {
@@ -513,7 +588,41 @@ func rumpKeys(c *core.Ctx) {
 		c.Undecidedf("R3.matrix", key, fn.Decl.Pos(), "cannot find `keyChan <- &KeyNode{k, ...}` with k ranging over a key list")
 		return
 	}
-	nAppend, nAlias := 0, 0
+	keyListFuncs = map[string]bool{"doFetch": true}
+	if keyList(c, fn, listObj, pf, 2) == 0 {
+		c.Undecidedf("R3.matrix", key, fn.Decl.Pos(), "no filtered `keys = append(keys, key)` found for the key list of doFetch")
+	}
+}
+
+// keyListFuncs: the functions whose handling of the rump key list was analysed by keyList.
+var keyListFuncs = map[string]bool{}
+
+// unfilteredOnly: node n (an alias of the unfiltered scan result) is reachable only when both key lists are empty.
+func unfilteredOnly(c *core.Ctx, info *types.Info, x *tt.X, n ast.Node) {
+	for _, f := range []string{fKB, fKW} {
+		f := f
+		ok, w := x.OnlyVia(cfgq.Point{}, n, func(ft cfgq.Fact) bool {
+			arg, pol, ok := lenTest(info, ft.Expr)
+			if !ok {
+				return false
+			}
+			name, isConf := tt.IsConfField(info, arg, f)
+			return isConf && name == f && ft.Val != pol
+		})
+		c.Check("R3.matrix", "rump-keys/unfiltered-only-without-"+f, n.Pos(), ok, "the scanned keys may be copied unfiltered only when "+f+" is empty; otherwise an excluded key is dumped and copied by rump", w...)
+	}
+}
+
+// keyList checks every definition of the key list listObj in fn (following one level of a
+// same-package helper that returns the list) and returns the number of filtered appends found.
+func keyList(c *core.Ctx, fn *core.Fn, listObj types.Object, pf *core.Fn, depth int) int {
+	info := fn.Pkg.TypesInfo
+	g := cfgq.Of(c.Program, fn)
+	x := tt.New(g)
+	key := "rump-keys/FilterKey"
+	why := "an excluded key is dumped and copied by rump"
+	keyListFuncs[fn.Decl.Name.Name] = true
+	nAppend := 0
 	for _, d := range tt.DefsOf(info, fn.Decl.Body, listObj) {
 		as, ok := d.Stmt.(*ast.AssignStmt)
 		if !ok || d.Rhs == nil {
@@ -568,25 +677,43 @@ func rumpKeys(c *core.Ctx) {
 				continue
 			}
 		}
-		// alias of the unfiltered list: only when no key list is configured
-		nAlias++
-		for _, f := range []string{fKB, fKW} {
-			f := f
-			ok, w := x.OnlyVia(cfgq.Point{}, pt.Node(), func(ft cfgq.Fact) bool {
-				arg, pol, ok := lenTest(info, ft.Expr)
-				if !ok {
-					return false
+		// the list is produced by a helper of the same package: look at what it returns
+		if call, ok := ast.Unparen(d.Rhs).(*ast.CallExpr); ok && depth > 0 {
+			if h := c.FnOf(core.CalleeFunc(info, call)); h != nil && h.Decl.Body != nil && h.Pkg.TypesInfo == info {
+				hg := cfgq.Of(c.Program, h)
+				hx := tt.New(hg)
+				keyListFuncs[h.Decl.Name.Name] = true
+				okRets := true
+				core.Inspect(h.Decl.Body, func(n ast.Node) bool {
+					r, isRet := n.(*ast.ReturnStmt)
+					if !isRet {
+						return true
+					}
+					if len(r.Results) != 1 {
+						okRets = false
+						return true
+					}
+					o, _ := core.ObjOf(info, r.Results[0]).(*types.Var)
+					switch {
+					case o == nil || o.IsField():
+						okRets = false
+					case len(tt.DefsOf(info, h.Decl.Body, o)) == 0: // a parameter: the unfiltered list
+						unfilteredOnly(c, info, hx, r)
+					default:
+						nAppend += keyList(c, h, o, pf, depth-1)
+					}
+					return true
+				})
+				if !okRets {
+					c.Undecidedf("R3.matrix", key, call.Pos(), "the key list is produced by %s in an unrecognised way", h.Decl.Name.Name)
 				}
-				name, isConf := tt.IsConfField(info, arg, f)
-				return isConf && name == f && ft.Val != pol
-			})
-			c.Check("R3.matrix", "rump-keys/unfiltered-only-without-"+f, as.Pos(), ok, "the scanned keys may be copied unfiltered only when "+f+" is empty; otherwise "+why, w...)
+				continue
+			}
 		}
+		// alias of the unfiltered list: only when no key list is configured
+		unfilteredOnly(c, info, x, pt.Node())
 	}
-	if nAppend == 0 {
-		c.Undecidedf("R3.matrix", key, fn.Decl.Pos(), "no filtered `keys = append(keys, key)` found in doFetch")
-	}
-	_ = nAlias
+	return nAppend
 }
 
 // ---------------------------------------------------------------------------
@@ -629,8 +756,8 @@ func readers(c *core.Ctx) {
 					switch {
 					case fd.Name.Name == "RestoreRdbEntry" && f == fLua:
 						c.Okf("R5.readers", key, sel.Pos(), "filter.lua is read by the Lua-script branch of RestoreRdbEntry (checked by R6)")
-					case fd.Name.Name == "doFetch" && (f == fKB || f == fKW) && inLen[ast.Expr(sel)]:
-						c.Okf("R5.readers", key, sel.Pos(), "doFetch only tests whether %s is empty (checked by R3 rump-keys)", f)
+					case keyListFuncs[fd.Name.Name] && strings.HasSuffix(pk.PkgPath, "/"+pkgRun) && (f == fKB || f == fKW) && inLen[ast.Expr(sel)]:
+						c.Okf("R5.readers", key, sel.Pos(), "%s only tests whether %s is empty (checked by R3 rump-keys)", fd.Name.Name, f)
 					default:
 						c.Undecidedf("R5.readers", key, sel.Pos(), "%s reads conf.Options.%s outside package filter: a local re-implementation of a filter is not analysed", fd.Name.Name, f)
 					}
